@@ -440,6 +440,8 @@ pub struct WorkerSlot {
     pub to_server: VecDeque<Bytes>,
     /// the worker processed `Stop` and is about to close its connection
     pub stopping: bool,
+    /// the simulation clock when the worker connected (its age = clock - this)
+    pub joined_clock_ms: u64,
 }
 
 pub enum PendingJournalOp {
@@ -497,6 +499,8 @@ pub struct System {
     pub launcher: Rc<RefCell<LauncherShared>>,
     pub obs: Vec<Obs>,
     pub used: BudgetUse,
+    /// some worker of the scenario has a limited lifetime (then time that passes also ages workers)
+    pub worker_lifetimes: bool,
     pub job_ids_opened: Vec<u32>,
     scratch: Scratch,
     pub server_uid: String,
@@ -1049,6 +1053,7 @@ impl System {
             launcher,
             obs: Vec::new(),
             used: BudgetUse::default(),
+            worker_lifetimes: sc.workers.iter().any(|w| w.time_limit_s.is_some()),
             job_ids_opened: Vec::new(),
             scratch,
             server_uid,
@@ -1190,6 +1195,7 @@ impl System {
             to_worker: VecDeque::new(),
             to_server: VecDeque::new(),
             stopping: false,
+            joined_clock_ms: self.launcher.borrow().clock_ms,
         });
         self.worker_ids[slot] = Some(id.as_num());
     }
@@ -1687,6 +1693,16 @@ impl System {
             for (exec, task) in fired {
                 self.obs.push(Obs::TimeLimitFired { exec, task });
             }
+            // workers with a limited lifetime: the same time passes for the server's clock and
+            // for the workers' own (they measure their age against the real clock; the hook moves
+            // the start of their life back)
+            if self.worker_lifetimes {
+                let d = Duration::from_millis(advance_ms);
+                self.server.advance(d);
+                for w in self.workers.iter().flatten() {
+                    w.sim.age_by(d);
+                }
+            }
             let local = &self.local;
             self.rt.block_on(local.run_until(async move {
                 tokio::time::advance(Duration::from_millis(advance_ms)).await;
@@ -1792,6 +1808,16 @@ fn describe_to_worker(frame: &[u8]) -> (&'static str, Vec<TaskId>, String) {
 }
 
 impl System {
+    /// How long the worker in `slot` has been connected, on the simulation clock.
+    pub fn worker_age_ms(&self, slot: u8) -> u64 {
+        let now = self.launcher.borrow().clock_ms;
+        self.workers
+            .get(slot as usize)
+            .and_then(|w| w.as_ref())
+            .map(|w| now.saturating_sub(w.joined_clock_ms))
+            .unwrap_or(0)
+    }
+
     /// The task ids the worker in `slot` named in the retract confirmation it queued last (the
     /// newest frame of its outgoing queue, right after it processed a RetractTasks message).
     pub fn last_retract_confirmation(&self, slot: u8) -> Option<Vec<TaskId>> {
